@@ -41,6 +41,21 @@ func (n *Node) Branch() *Node {
 		Deposits: append([]refspec.DepositData{}, n.Deposits...)}
 }
 
+// Reloaded: the same chain position with NOTHING long-lived: the real state re-read from its own bytes and a
+// context built from scratch on it (what a node restarted from its database would hold).
+func (n *Node) Reloaded() (*Node, error) {
+	st, err := LoadReal(n.W.Spec, ForkOfReal(n.Real), RealBytes(Unwrap(n.Real)))
+	if err != nil {
+		return nil, err
+	}
+	epc, err := common.NewEpochsContext(n.W.Spec, st)
+	if err != nil {
+		return nil, err
+	}
+	return &Node{W: n.W, Ref: n.Ref.Copy(n.W.C), Real: &beacon.StandardUpgradeableBeaconState{BeaconState: st}, EPC: epc,
+		Deposits: append([]refspec.DepositData{}, n.Deposits...)}, nil
+}
+
 // ---------------------------------------------------------------- deposit tree (independent)
 
 // DepositProof: branch of leaf `index` in the depth-32 tree over the first `count` leaves, plus the
@@ -141,7 +156,7 @@ func (w *World) Genesis() (*Node, error) {
 			amt = p.GenesisBalances(i)
 		}
 		creds := BLSCreds(w.Keys[i].PK)
-		if i%4 == 3 {
+		if i%4 == 3 || p.AllEth1Creds {
 			creds = Eth1Creds(byte(0x40 + i))
 		}
 		datas = append(datas, w.MakeDepositData(i, amt, creds, i))
